@@ -35,7 +35,8 @@ FREE = (
     "a>b",
 )
 NUMS = ("1", "-1", "1.5", "-0.25", "10.", ".5", "1:30", "-1:30:15", "12:30.5", "0:00:01.25")
-B64 = ("", "QQ==", "QUI=", "QUJD", "AAECAwQFBgcICQ==")
+# the last value is longer than any line length a serialiser might wrap at (120 characters of base64)
+B64 = ("", "QQ==", "QUI=", "QUJD", "AAECAwQFBgcICQ==", "QUJD" * 30)
 
 # slot kinds: "free", "num", "b64", or a vocabulary tuple
 K_FREE, K_NUM, K_B64 = "free", "num", "b64"
